@@ -1,0 +1,161 @@
+//go:build verif
+
+// Contracts for the core of rule evaluation (C01, C08, C09), checked by /verif/govc (comment-only file; no code).
+// Trusted interface contracts (opEval, actType, actionEvals, rvName): /verif/specs/match.spec.
+package corazawaf
+
+// asState(tx): the transaction as the plugintypes.TransactionState interface value operators and actions receive
+// (definition: the interface value with dynamic type *Transaction and dynamic value tx).
+//@ spec asState(tx *Transaction) plugintypes.TransactionState
+//@ axiom asStateDef: forall t *Transaction :: typeof(asState(t)) == tag("*Transaction") && payload(asState(t), "*Transaction") == t
+
+// ---------------------------------------------------------------- operator and negation (C01, C15)
+// opHolds(r, tx, v): the rule's operator, with its negation applied, holds for the (transformed) value v
+//@ define opHolds(r *Rule, tx *Transaction, v string) bool := opEval(r.operator.Operator, asState(tx), v) != r.operator.Negation
+
+// The operator's verdict is inverted exactly when the rule's operator carries the negation flag:
+// result == opEval(...) XOR Negation.
+//@ func (*Rule).executeOperator props C01,C15,C07
+// (no nil-ness precondition: rule evaluation cannot establish it without a WAF-wide invariant; the nil/ obligations of
+// this unit stay open)
+//@   modifies inferred
+//@   ensures xorNegation: result == (opEval(r.operator.Operator, asState(tx), data) != r.operator.Negation)
+//@   ensures plain: !r.operator.Negation ==> result == opEval(r.operator.Operator, asState(tx), data)
+//@   ensures complement: r.operator.Negation ==> result == !opEval(r.operator.Operator, asState(tx), data)
+
+// SetOperator: the negation flag is set exactly when the function name starts with '!'; the operator, name and
+// parameters are stored as given.
+//@ func (*Rule).SetOperator props C01,C15,C07
+//@   modifies r.operator
+//@   ensures stored: r.operator != nil && fresh(r.operator) && r.operator.Operator == operator && r.operator.Function == functionName && r.operator.Data == params
+//@   ensures negation: r.operator.Negation == (len(functionName) > 0 && functionName[0] == '!')
+
+// ---------------------------------------------------------------- MATCHED_* bookkeeping and captures (C09, C15)
+
+// matchedName(m): the name a match is reported under in MATCHED_VAR_NAME / MATCHED_VARS: the variable's name, followed
+// by ":" and the key exactly when the key is not empty.
+//@ define matchedName(m *corazarules.MatchData) string := ite(m.Key_ != "", rvName(m.Variable_) + ":" + m.Key_, rvName(m.Variable_))
+//@ define MatchedColsOK(tx *Transaction) bool := ArgColOK(tx.variables.matchedVars) && tx.variables.matchedVar != nil &&
+//@     tx.variables.matchedVarName != nil && tx.variables.matchedVar != tx.variables.matchedVarName
+
+// (*Transaction).matchVariable: MATCHED_VAR is the matched value, MATCHED_VAR_NAME the match's name, MATCHED_VARS gains
+// exactly one entry (name, value) at the end of the name's list, and no other name of MATCHED_VARS changes
+// (MATCHED_VARS_NAMES is a view of MATCHED_VARS).
+//@ func (*Transaction).matchVariable props C09,C01,C07
+//@   requires wf: match != nil && MatchedColsOK(tx)
+//@   modifies mapof(tx.variables.matchedVars.Map.data), collections.keyValue.key, collections.keyValue.value, tx.variables.matchedVar.data, tx.variables.matchedVarName.data
+//@   ensures matchedVar: tx.variables.matchedVar.data == match.Value_
+//@   ensures matchedVarName: tx.variables.matchedVarName.data == matchedName(match)
+//@   ensures matchedVarsOneMore: pairAdded(tx.variables.matchedVars, matchedName(match), match.Value_)
+//@   ensures matchedVarsEntry: pairIsLast(tx.variables.matchedVars, matchedName(match), match.Value_)
+//@   ensures matchedVarsOthers: othersKept(tx.variables.matchedVars, matchedName(match))
+
+// capKey(tx, i): the key of the TX collection under which capture slot i is stored
+//@ define capKey(tx *Transaction, i int) string := normKey(tx.variables.tx, itoa(i))
+//@ define txColUnchanged(tx *Transaction) bool := forall k string :: has(tx.variables.tx.data, k) == old(has(tx.variables.tx.data, k)) &&
+//@     tx.variables.tx.data[k] == old(tx.variables.tx.data[k])
+
+// CaptureField(i, v) (C15: "capturing operators store the matched texts in TX.0-9"): with capturing on and a slot
+// index 0..9 the value is stored as the first entry of TX:<i>; nothing is stored when capturing is off, and nothing
+// outside the ten slots. No precondition on the index: the call must not panic for any i.
+//@ func (*Transaction).CaptureField props C15,C09,C07
+//@   requires wf: !isnil(tx.debugLogger) && tx.variables.tx != nil && tx.variables.tx.data != nil
+//@   modifies mapof(tx.variables.tx.data), collections.keyValue.key, collections.keyValue.value
+//@   ensures stored: tx.Capture && 0 <= index && index <= 9 ==> has(tx.variables.tx.data, capKey(tx, index)) &&
+//@       tx.variables.tx.data[capKey(tx, index)][0].value == value && tx.variables.tx.data[capKey(tx, index)][0].key == itoa(index)
+//@   ensures onlyThatKey: forall k string :: k != capKey(tx, index) ==> has(tx.variables.tx.data, k) == old(has(tx.variables.tx.data, k)) &&
+//@       tx.variables.tx.data[k] == old(tx.variables.tx.data[k])
+//@   ensures offStoresNothing: !tx.Capture ==> txColUnchanged(tx)
+//@   ensures onlySlots0to9: !(0 <= index && index <= 9) ==> txColUnchanged(tx)
+
+// resetCaptures visits exactly the ten capture slots "0".."9" (the one-byte strings of the runes 48..57), each once, in
+// order, and sets the first entry of each to the empty string; no other key of TX is added, removed or re-bound.
+//@ define isSlotKey(tx *Transaction, k string) bool := exists d int :: 48 <= d && d <= 57 && k == normKey(tx.variables.tx, unit(d))
+//@ func (*Transaction).resetCaptures props C15,C09,C05,C07
+//@   requires wf: !isnil(tx.debugLogger) && tx.variables.tx != nil && tx.variables.tx.data != nil
+//@   modifies inferred
+//@   ensures allSlotsPresent: forall d int :: 48 <= d && d <= 57 ==> has(tx.variables.tx.data, normKey(tx.variables.tx, unit(d)))
+//@   ensures onlySlots: forall k string :: !isSlotKey(tx, k) ==> has(tx.variables.tx.data, k) == old(has(tx.variables.tx.data, k)) &&
+//@       tx.variables.tx.data[k] == old(tx.variables.tx.data[k])
+//@   at call "ctx.SetIndex(" requires slotCall: arg(0) == tx.variables.tx && 48 <= i && i <= 57 && arg(1) == unit(i) && arg(2) == 0 && arg(3) == ""
+//@   loop 1
+//@     invariant range: 48 <= i && i <= 58 && ctx == tx.variables.tx && tx.variables.tx.data == old(tx.variables.tx.data)
+//@     invariant done: forall d int :: 48 <= d && d < i ==> has(tx.variables.tx.data, normKey(tx.variables.tx, unit(d)))
+//@     invariant onlySlots: forall k string :: !isSlotKey(tx, k) ==> has(tx.variables.tx.data, k) == old(has(tx.variables.tx.data, k)) &&
+//@         tx.variables.tx.data[k] == old(tx.variables.tx.data[k])
+//@     step emptied: i == prev(i) + 1 && has(tx.variables.tx.data, normKey(tx.variables.tx, unit(prev(i)))) &&
+//@         tx.variables.tx.data[normKey(tx.variables.tx, unit(prev(i)))][0].value == ""
+//@     after allTen: i == 58
+
+// ---------------------------------------------------------------- non-disruptive actions, once per match (C09)
+
+// matchVarCalls counts the calls of (*Rule).matchVariable (definitional ghost effect of the call)
+//@ ghost var matchVarCalls int
+//@ define ActionsCompiled(r *Rule) bool := forall j int :: 0 <= j && j < len(r.actions) ==> !isnil(r.actions[j].Function)
+
+// (*Rule).matchVariable: the MATCHED_* variables are updated with this match BEFORE any action runs (macros of the
+// actions are expanded against that state); then the loop runs over ALL actions of the rule in order (a range loop:
+// `after allVisited`), and in every iteration the action is evaluated exactly once when its type is Nondisruptive and
+// not at all otherwise (actionEvals counts the Action.Evaluate calls, lastActionEvaluated is the last receiver).
+//@ func (*Rule).matchVariable props C09,C01,C07
+//@   requires wf: tx != nil && m != nil && MatchedColsOK(tx) && !isnil(tx.debugLogger) && ActionsCompiled(r)
+//@   modifies inferred, actionEvals, lastActionEvaluated, matchVarCalls
+//@   ensures def_called: matchVarCalls == old(matchVarCalls) + 1
+//@   at call "tx.matchVariable(m)" requires matchedVarsFirst: actionEvals == old(actionEvals) && arg(1) == m
+//@   at call "a.Function.Evaluate(r, tx)" requires onlyNondisruptive: actType(a.Function) == plugintypes.ActionTypeNondisruptive
+//@   at call "a.Function.Evaluate(r, tx)" requires theActionAtHand: 0 <= rangeindex + 1 && rangeindex + 1 < len(r.actions) && a.Function == r.actions[rangeindex + 1].Function
+//@   at call "a.Function.Evaluate(r, tx)" requires onTheRuleAndTx: payload(arg(0), "*Rule") == r && typeof(arg(0)) == tag("*Rule") && arg(1) == asState(tx)
+//@   loop 1
+//@     invariant range: -1 <= rangeindex && rangeindex < len(r.actions) && r.actions == old(r.actions) && ActionsCompiled(r)
+//@     invariant matchedBeforeFirstAction: actionEvals == old(actionEvals) ==> tx.variables.matchedVar.data == m.Value_ &&
+//@         tx.variables.matchedVarName.data == matchedName(m)
+//@     invariant countGrows: actionEvals >= old(actionEvals)
+//@     step eachOnce: actionEvals == prev(actionEvals) + ite(actType(a.Function) == plugintypes.ActionTypeNondisruptive, 1, 0)
+//@     step evaluatedIt: actType(a.Function) == plugintypes.ActionTypeNondisruptive ==> lastActionEvaluated == a.Function
+//@     step inOrder: rangeindex == prev(rangeindex) + 1 && a.Function == r.actions[rangeindex].Function
+//@     after allVisited: rangeindex == len(r.actions) - 1
+
+// ---------------------------------------------------------------- doEvaluate: match records, chains, parent-only actions (C01, C08, C09)
+
+//@ define flowOrDisruptive(a plugintypes.Action) bool := actType(a) == plugintypes.ActionTypeFlow || actType(a) == plugintypes.ActionTypeDisruptive
+
+//@ func (*Rule).doEvaluate extend props C01,C08,C09
+// C01 -- a match record is created exactly for a transformed value the (possibly negated) operator holds for; it
+// carries the argument's variable and key, the TRANSFORMED value and the current chain level, and nothing has been
+// expanded into it yet when the MATCHED_* variables / non-disruptive actions are run for it (C09)
+//@   at call "r.matchVariable(tx, mr)" requires recordIsTheMatch: match && opHolds(r, tx, carg) && mr.Variable_ == mdVariable(arg) &&
+//@       mr.Key_ == mdKey(arg) && mr.Value_ == carg && mr.ChainLevel_ == chainLevel
+//@   at call "r.matchVariable(tx, mr)" requires beforeExpansion: mr.Message_ == "" && mr.Data_ == ""
+//@   at "matchedValues = append(matchedValues, mr)" requires appendsOnlyMatches: match
+//@   at "Evaluating operator: NO MATCH" requires noRecordWithoutMatch: !match && !opHolds(r, tx, carg)
+// a rule without an operator matches unconditionally, once
+//@   at call "r.matchVariable(tx, md)" requires unconditionalOnce: r.operator == nil && len(matchedValues) == 1
+//@   loop 5
+//@     step appendedIffMatched: len(matchedValues) == prev(len(matchedValues)) + ite(match, 1, 0)
+//@     step matchVariableOncePerRecord: matchVarCalls == prev(matchVarCalls) + ite(match, 1, 0)
+// chains (C01, C08): only the chain starter walks the chain, and only with a match of its own; the links are evaluated
+// in order nr = r.Chain, nr.Chain, ... one level deeper each; the first link that returns nothing ends the evaluation
+// with an empty result
+//@   at call "nr.doEvaluate(" requires starterWithOwnMatch: r.ParentID_ == noID && len(matchedValues) > 0 && nr != nil
+//@   loop 7
+//@     invariant starterMatched: r.ParentID_ == noID && len(matchedValues) > 0
+//@     step nextLinkInOrder: nr == prev(nr).Chain && chainLevel == prev(chainLevel) + 1 && len(matchedChainValues) > 0 &&
+//@         len(matchedValues) == prev(len(matchedValues)) + len(matchedChainValues)
+//@     exits emptyLinkEndsChain: len(matchedChainValues) == 0
+//@     after everyLinkFired: nr == nil && len(matchedValues) > 0
+// C08 / C09 -- flow and disruptive actions and the match log entry: only the chain starter, only after every link
+// returned a non-empty result, only actions of type Flow or Disruptive, each at most once per call
+//@   at call "a.Function.Evaluate(r, tx)" requires starterAfterWholeChain: r.ParentID_ == noID && len(matchedValues) > 0 && flowOrDisruptive(a.Function)
+//@   at call "tx.MatchRule(r, matchedValues)" requires loggedOnlyWithID: r.ID_ != noID && r.ParentID_ == noID && len(matchedValues) > 0
+//@   loop 8
+//@     invariant afterWholeChain: r.ParentID_ == noID && len(matchedValues) > 0
+//@     step eachAtMostOnce: actionEvals == prev(actionEvals) + ite(flowOrDisruptive(a.Function), 1, 0)
+//@     step evaluatedIt: flowOrDisruptive(a.Function) ==> lastActionEvaluated == a.Function
+//@     step inOrder: rangeindex == prev(rangeindex) + 1
+// UNPROVED: (caller side, in doEvaluate) pre/(*Rule).matchVariable/wf at rule.go:232 and :301 and pre/(*Map).SetIndex/usable at
+// rule.go:203 -- well-formedness of the transaction (non-nil MATCHED_* / RULE collections, logger, compiled actions) that
+// doEvaluate can only get from its callers; like the existing pre/(*Transaction).MatchRule/* and pre/GetField/logger
+// obligations of this unit they need a transaction-wide invariant threaded through Evaluate / RuleGroup.Eval.
+// UNPROVED: the "ensures" form of 'the result is empty exactly when nothing matched or a link returned nothing' (stated through
+// loop 7 exits/after/step and the len(matchedValues) > 0 invariants instead; `returns` on loop 7 is rejected by the engine:
+// "cannot locate the loop in the syntax", and `at "return matchedChainValues"` matches no instruction).
